@@ -196,6 +196,14 @@ def build_record(v, np):
     if cls in ('LineArray', 'MultiPointArray', 'RingArray', 'PolygonArray', 'MultiLineArray', 'MultiPolygonArray'):
         import spatialpandas.geometry as g
         return getattr(g, cls)(f['listarray'])
+    if cls in ('Polygon', 'MultiPolygon', 'MultiPoint') and 'buffer_values' in f:
+        import spatialpandas.geometry as g
+        vals = [float(x) for x in f['buffer_values']]
+        if cls == 'MultiPoint':
+            return g.MultiPoint(vals)
+        offs = [int(x) for x in f['buffer_inner_offsets']]
+        rings = [vals[a:b] for a, b in zip(offs, offs[1:])]
+        return g.Polygon(rings) if cls == 'Polygon' else g.MultiPolygon([rings])
     if cls == 'slice':
         return slice(f.get('start'), f.get('stop'), f.get('step'))
     if cls in ('HilbertRtree', 'GeometryArrayTB'):
